@@ -84,8 +84,33 @@ def compare_outcomes(real, model, expect_ty=None):
     return None
 
 
+def table_obligations(ctx):
+    """name the obligation of Proofs/InterpTables.lean that an edited table / bound re-opened: the build log's error
+    positions in that file are mapped to the enclosing `theorem` (the generic `theorem:*` obligations only say that the
+    Props module does not build)"""
+    import os
+    from harness import common
+    path = os.path.join(common.LEAN, 'PytezosModel', 'Proofs', 'InterpTables.lean')
+    src = open(path).read().split('\n')
+    names = [(i + 1, m.group(1)) for i, ln in enumerate(src) for m in [re.match(r'theorem\s+(\S+)', ln)] if m]
+    log = '\n'.join(d for n, ok, d in ctx.obligations if n.startswith('build:') and not ok)
+    bad = {}
+    for m in re.finditer(r'InterpTables\.lean:(\d+):\d+: (.*)', log):
+        line = int(m.group(1))
+        owner = [nm for ln, nm in names if ln <= line]
+        if owner:
+            bad.setdefault(owner[-1], m.group(2)[:200])
+    for _, nm in names:
+        ctx.obligation(f'source-table:{nm}', nm not in bad, bad.get(nm, 'closed by decide / case analysis over Generated.C01'))
+    # the re-opened ones first: they are what the report should name
+    ctx.obligations.sort(key=lambda o: not (o[0].startswith('source-table:') and not o[1]))
+    return sorted(bad)
+
+
 def run(ctx, prop=PROP):
-    ctx.prepare_lean(extract.generate(prop))
+    # C02 runs on the same model: the tables `Impl` reads are regenerated from the source for both properties
+    ctx.prepare_lean(extract.generate('C01'))
+    ctx.extra['reopened_table_obligations'] = table_obligations(ctx)
     n_prog = 1500 if ctx.tier == 'quick' else 40000
     g = gen_interp.Gen(ctx.rng)
     ctx.extra['rule'] = ('well-typed programs grown type-directedly over the modelled core (see harness/gen_interp.py); '
